@@ -2,8 +2,11 @@
 package main
 
 import (
+	"encoding/json"
 	"fmt"
 	"os"
+
+	"verif/internal/echx"
 
 	"verif/internal/ev"
 )
@@ -14,6 +17,9 @@ type checkFn struct {
 }
 
 var registry = map[string]checkFn{}
+
+// streamReplay: checks whose replay files are self-contained client streams (+keys, +later records)
+var streamReplay = map[string]bool{"C02": true, "C03": true, "C04": true, "C05": true, "C08": true}
 
 // workers are sub-process entry points: check <ID> worker <args...>
 var workers = map[string]func(args []string){}
@@ -38,6 +44,23 @@ func main() {
 	replay := ""
 	if len(os.Args) > 3 {
 		replay = os.Args[3]
+	}
+	if tier == "replay" && streamReplay[id] {
+		// self-contained replay of a stream-based ECH case: no generator, no explorer
+		b, err := os.ReadFile(replay)
+		if err != nil {
+			ev.ToolError("%v", err)
+		}
+		var doc struct {
+			Key    string         `json:"key"`
+			What   string         `json:"what"`
+			Replay map[string]any `json:"replay"`
+		}
+		if err := json.Unmarshal(b, &doc); err != nil || doc.Replay == nil {
+			ev.ToolError("replay file: %v", err)
+		}
+		fmt.Printf("recorded violation: %s\n%s\n--- re-execution on the current tree ---\n%s", doc.Key, doc.What, echx.ReplayStream(doc.Replay))
+		return
 	}
 	r := ev.Begin(id, tier, c.level)
 	c.run(r, replay)
